@@ -215,6 +215,8 @@ def check(case):
             out.append(Fail('pl-uninterpretable', {'error': str(exc)[:150], 'text': text[:300]}))
     if bd.observe(fm) != model:
         out.append(Fail('export-mutates-model', None))
+    if not out and model[1] and sh.size(model) <= 4 and case[0] == 'SK':
+        out.extend(_after_ctc_edits(model, names))
     if not out and sh.size(model) <= 2:
         for W, ext in ((SPLOTWriter, 'sxfm'), (PLWriter, 'exp')):
             try:
@@ -226,6 +228,33 @@ def check(case):
                 bad.clause = ext + ':' + bad.clause
                 out.append(bad)
     return out
+
+
+def _after_ctc_edits(model, names):
+    """Export, edit the Node objects of the constraints in place, export again: the second export
+    denotes the edited model."""
+    from .c03 import ctc_edits
+    for (what, edit, em) in ctc_edits(model):
+        fm = bd.build(model)
+        want = set(sem.configs(em))
+        try:
+            SPLOTWriter(engine.tmppath('e.sxfm'), fm).transform()
+            PLWriter(engine.tmppath('e.exp'), fm).transform()
+            cm.checked_edit(fm, edit, model, em, what)
+            t1 = SPLOTWriter(engine.tmppath('e.sxfm'), fm).transform()
+            t2 = PLWriter(engine.tmppath('e.exp'), fm).transform()
+            engine.tick(4)
+            got1, _ids = sxfm.configs(t1)
+            got2, _used = plexp.configs(t2, names)
+        except AssertionError:
+            raise
+        except Exception as exc:  # noqa: BLE001
+            return [Fail('after-inplace-edit:raises:%s' % type(exc).__name__, {'edit': what, 'msg': str(exc)[:200]})]
+        if got1 != want:
+            return [Fail('after-inplace-edit:splot-configurations', {'edit': what, 'info': _diff(got1, want)})]
+        if got2 != want:
+            return [Fail('after-inplace-edit:pl-configurations', {'edit': what, 'info': _diff(got2, want)})]
+    return []
 
 
 def _diff(got, want):
